@@ -87,7 +87,7 @@ def build_lean():
 def _prune_cache(prefix, keep=14):
     if not os.path.isdir(CACHE):
         return
-    items = [os.path.join(CACHE, f) for f in os.listdir(CACHE) if f.startswith(prefix)]
+    items = [os.path.join(CACHE, f) for f in os.listdir(CACHE) if f.startswith(prefix) and "." not in f]
     items.sort(key=lambda p: os.path.getmtime(p), reverse=True)
     for p in items[keep:]:
         try:
@@ -108,16 +108,25 @@ def build_harness(name="bgh", src="bgh.cpp", flags=None, compiler="g++", defines
     if os.path.exists(out):
         os.utime(out, None)
         return out
-    cmd = [compiler] + flags + list(defines) + ["-I", repo_include(), "-I", HARNESS,
-                                                 os.path.join(HARNESS, src), "-o", out + ".tmp"]
-    t0 = time.time()
-    rc, o = sh(cmd, timeout=1800)
-    if rc != 0:
-        raise BuildError(f"harness build ({name})", o)
-    os.replace(out + ".tmp", out)
-    log(f"[build] {name} compiled in {time.time()-t0:.1f}s")
-    _prune_cache(name + "-")
-    return out
+    import fcntl
+    with open(out + ".lock", "w") as lk:
+        fcntl.flock(lk, fcntl.LOCK_EX)      # concurrent checks build the same binary once
+        try:
+            if os.path.exists(out):
+                return out
+            tmp = f"{out}.tmp{os.getpid()}"
+            cmd = [compiler] + flags + list(defines) + ["-I", repo_include(), "-I", HARNESS,
+                                                         os.path.join(HARNESS, src), "-o", tmp]
+            t0 = time.time()
+            rc, o = sh(cmd, timeout=1800)
+            if rc != 0:
+                raise BuildError(f"harness build ({name})", o)
+            os.replace(tmp, out)
+            log(f"[build] {name} compiled in {time.time()-t0:.1f}s")
+            _prune_cache(name + "-")
+            return out
+        finally:
+            fcntl.flock(lk, fcntl.LOCK_UN)
 
 
 # ------------------------------------------------------------------ audit of the proofs
@@ -218,10 +227,19 @@ def run_pair(ops_text, harness_bin, tag="run", timeout=1200, harness_env=None):
     impl_err = p.stderr.decode("utf-8", "replace")
     # the model replays what the implementation echoed; if the harness died, fall back to the
     # original ops so that the model transcript is still complete
-    src = echo_p if p.returncode == 0 and os.path.exists(echo_p) else ops_p
-    with open(src, "rb") as fin:
-        q = subprocess.run([DRIVER], stdin=fin, stdout=subprocess.PIPE, stderr=subprocess.PIPE,
-                           timeout=timeout)
+    if p.returncode == 0 and os.path.exists(echo_p):
+        model_in = open(echo_p, "rb").read()
+    else:
+        # the harness died: replay what it echoed (with its oracle annotations) and then the rest of
+        # the original ops, so that the model transcript is complete and the first difference is the
+        # operation during which the implementation died
+        echoed = open(echo_p, "rb").read().split(b"\n") if os.path.exists(echo_p) else []
+        if echoed and echoed[-1] == b"":
+            echoed.pop()
+        orig = ops_text.encode().split(b"\n")
+        model_in = b"\n".join(echoed + orig[len(echoed):])
+    q = subprocess.run([DRIVER], input=model_in, stdout=subprocess.PIPE, stderr=subprocess.PIPE,
+                       timeout=timeout)
     model = q.stdout.decode("utf-8", "replace")
     for f in (ops_p, echo_p):
         try:
